@@ -12,11 +12,15 @@
    and, under them, jiff 0.2.5 as read in its source:
      shared/util/itime.rs  IDate::to_epoch_day, IEpochDay::to_date (Neri-Schneider),
                            IDateTime::to_timestamp, ITimestamp::to_datetime
-     timestamp.rs          impl Ord/PartialEq for Timestamp (on the (second, nanosecond) pair)
+     timestamp.rs          impl Ord/PartialEq for Timestamp (on the (second, nanosecond) pair),
+                           as_nanosecond(_ranged), from_nanosecond(_ranged)
      util/t.rs             ranges of Year, UnixSeconds, SpanZoneOffset
      civil/datetime.rs     DateTime::to_zoned (gap/fold: offset before the transition)
    The tz database is data: a named zone is a pair of functions (offset used to convert a
-   civil time, offset in force at an instant). *)
+   civil time, offset in force at an instant).
+   The jiff layer is kept as the library is (mixed-sign pairs next to the epoch, comparison on
+   the pair: the former finding F17); parse_timestamp re-creates every instant it returns from
+   its nanosecond value (ts_renorm below), so the pairs tackler holds and compares are canonical. *)
 From TkModel Require Import Base Dec Acct Txn.
 Local Open Scope Z_scope.
 
@@ -124,6 +128,19 @@ Definition civil_to_jts (c : civil) (off : Z) : option jts :=
            else mkJts sec (cv_ns c) in
   if (TS_MIN_SEC <=? j_sec t) && (j_sec t <=? TS_MAX_SEC) then Some t else None.
 
+(* Timestamp::as_nanosecond: second * 10^9 + nanosecond; at the minimum second a negative
+   fraction is clamped to 0 *)
+Definition jts_as_nanosecond (t : jts) : Z :=
+  if (j_sec t =? TS_MIN_SEC) && (j_ns t <? 0) then TS_MIN_SEC * NS else jts_inst t.
+(* Timestamp::from_nanosecond: range check (util/t.rs UnixNanoseconds), then
+   from_nanosecond_ranged: quotient and remainder of the TRUNCATED division (rangeint div_ceil /
+   rem_ceil are i128 wrapping_div / wrapping_rem), i.e. second and nanosecond of the same sign *)
+Definition jts_from_nanosecond (n : Z) : option jts :=
+  if (TS_MIN_SEC * NS <=? n) && (n <=? TS_MAX_SEC * NS + 999999999)
+  then Some (mkJts (Z.quot n NS) (Z.rem n NS)) else None.
+(* the workaround of parse_timestamp: Timestamp::from_nanosecond(ts.timestamp().as_nanosecond()) *)
+Definition jts_renorm (t : jts) : option jts := jts_from_nanosecond (jts_as_nanosecond t).
+
 (* jiff::Zoned: instant + the offset in force *)
 Record zoned : Type := mkZoned { z_ts : jts; z_off : Z }.
 
@@ -140,6 +157,15 @@ Definition to_zoned (z : jzone) (c : civil) : option zoned :=
   | ZFixed off => option_map (fun t => mkZoned t off) (civil_to_jts c off)
   | ZNamed nz => option_map (fun t => mkZoned t (nz_inst nz (jts_inst t))) (civil_to_jts c (nz_civil nz c))
   end.
+
+(* Timestamp::to_zoned(tz): the instant with the offset of tz in force at it *)
+Definition ts_to_zoned (z : jzone) (t : jts) : zoned :=
+  mkZoned t (match z with ZFixed off => off | ZNamed nz => nz_inst nz (jts_inst t) end).
+
+(* the end of parse_timestamp: the Zoned `ts` of the alternatives (with its time zone) is
+   re-created from its nanosecond value; an error of from_nanosecond is a parse error *)
+Definition ts_renorm (z : jzone) (zd : zoned) : option zoned :=
+  option_map (ts_to_zoned z) (jts_renorm (z_ts zd)).
 
 (* ------------------------------------------------------------------ configuration *)
 (* kernel.timestamp: default-time and timezone *)
@@ -249,13 +275,17 @@ Definition p_offset (sign : Z) (s : str) : option (Z * str) :=
     end
   end.
 
-(* parse_timestamp = alt(parse_datetime_tz, parse_datetime, parse_date): prefix parser.
+(* alt(parse_datetime_tz, parse_datetime, parse_date): prefix parser.
    Every failure after the year digits is a cut error, so the alternatives collapse to this
-   decision tree; the result is the zoned time stamp and the unconsumed rest. *)
-Definition parse_ts (cfg : tscfg) (s : str) : option (zoned * str) :=
+   decision tree; the result is the jiff::Zoned as the library built it (possibly a mixed-sign
+   pair), the time zone it carries, and the unconsumed rest. *)
+Definition zoned_with (z : jzone) (o : option zoned) (r : str) : option (zoned * jzone * str) :=
+  option_map (fun zd => (zd, z, r)) o.
+Definition parse_ts_alt (cfg : tscfg) (s : str) : option (zoned * jzone * str) :=
   match p_date s with
   | None => None
   | Some (y, m, d, r1) =>
+    let date_only := zoned_with (cfg_zone cfg) (get_offset_date cfg y m d) r1 in
     match r1 with
     | c :: r2 =>
       if (c =? ch_T)%N then
@@ -263,22 +293,30 @@ Definition parse_ts (cfg : tscfg) (s : str) : option (zoned * str) :=
         | None => None
         | Some (h, mi, sec, ns, r3) =>
           let cv := mkCivil y m d h mi sec ns in
-          let dflt := option_map (fun z => (z, r3)) (get_offset_datetime cfg cv) in
+          let dflt := zoned_with (cfg_zone cfg) (get_offset_datetime cfg cv) r3 in
           match r3 with
           | c3 :: r4 =>
-            if (c3 =? ch_Z)%N then option_map (fun z => (z, r4)) (to_zoned (ZFixed 0) cv)
+            if (c3 =? ch_Z)%N then zoned_with (ZFixed 0) (to_zoned (ZFixed 0) cv) r4
             else if (c3 =? ch_plus)%N || (c3 =? ch_minus)%N then
               match p_offset (if (c3 =? ch_plus)%N then 1 else -1) r4 with
               | None => None
-              | Some (off, r5) => option_map (fun z => (z, r5)) (to_zoned (ZFixed off) cv)
+              | Some (off, r5) => zoned_with (ZFixed off) (to_zoned (ZFixed off) cv) r5
               end
             else dflt
           | [] => dflt
           end
         end
-      else option_map (fun z => (z, r1)) (get_offset_date cfg y m d)
-    | [] => option_map (fun z => (z, r1)) (get_offset_date cfg y m d)
+      else date_only
+    | [] => date_only
     end
+  end.
+
+(* parse_timestamp: the alternatives, then the instant re-created from its nanosecond value
+   (canonical pair: second and nanosecond of the same sign) in the same time zone *)
+Definition parse_ts (cfg : tscfg) (s : str) : option (zoned * str) :=
+  match parse_ts_alt cfg s with
+  | Some (zd, z, r) => option_map (fun zn => (zn, r)) (ts_renorm z zd)
+  | None => None
   end.
 
 (* Settings::parse_timestamp (winnow Parser::parse: the whole input must be consumed); also what
@@ -290,7 +328,8 @@ Definition parse_ts_whole (cfg : tscfg) (s : str) : option zoned :=
   end.
 
 (* ------------------------------------------------------------------ ordering *)
-(* impl Ord for Timestamp: lexicographic on (second, nanosecond) *)
+(* impl Ord / PartialEq for Timestamp: lexicographic on (second, nanosecond). Every time stamp
+   of a transaction comes from parse_ts, so these are applied to canonical pairs only *)
 Definition jts_cmp (a b : jts) : comparison :=
   cmp_then (Z.compare (j_sec a) (j_sec b)) (Z.compare (j_ns a) (j_ns b)).
 Definition jts_eqb (a b : jts) : bool := (j_sec a =? j_sec b) && (j_ns a =? j_ns b).
